@@ -741,8 +741,8 @@ static void enumerate_c01(void)
 				vf_nontrivial_case();
 				flush_counts();
 			}
-		/* d = 2 for three algorithms: pairs of segment-level operations */
-		if (vf_thorough && (p->alg == JWT_ALG_HS256 || (p->alg == JWT_ALG_ES256 && !strcmp(pn, "p256a")) || !strcmp(pn, "ed25519a"))) {
+		/* d = 2, every pair of the table: pairs of segment-level operations */
+		if (vf_thorough) {
 			rt_t t;
 			rt_parse(p->tok_ref[0], &t);
 			size_t l3 = strlen(t.seg[2]);
@@ -755,7 +755,8 @@ static void enumerate_c01(void)
 					memcpy(m, p->tok_ref[0], t.input_len + 1 + cut);
 					m[t.input_len + 1 + cut] = ref_b64_abc[a];
 					m[t.input_len + 2 + cut] = 0;
-					emit_c01(p, c, m, "d2-truncate-then-extend");
+					/* cutting the last character and appending another is the substitution of the last character: same class name */
+					emit_c01(p, c, m, cut + 1 == l3 ? "sig-last-char" : "d2-truncate-then-extend");
 					if (cut > 0) {
 						m[t.input_len + cut] = ref_b64_abc[a];
 						m[t.input_len + 1 + cut] = 0;
@@ -767,17 +768,17 @@ static void enumerate_c01(void)
 				vf_nontrivial_case();
 				flush_counts();
 			}
-			/* pairs of header character substitutions (first 24 header characters) */
+			/* pairs of header character substitutions (every header position) */
 			size_t hl = strlen(t.seg[0]);
-			for (size_t p1 = 0; p1 < hl && p1 < 24; p1++) {
-				if (!vf_case("%s/%s d=2: header position %zu x every later header position, all character pairs from an 8-character subset", pn, an, p1))
+			for (size_t p1 = 0; p1 < hl; p1++) {
+				if (!vf_case("%s/%s d=2: header position %zu x every later header position, all character pairs from a 16-character subset", pn, an, p1))
 					continue;
-				static const char sub[] = "AQgw05-_";
+				static const char sub[] = "AQgw05-_BCefIJYZ";
 				jwt_checker_t *c = pair_checker(p);
 				char *m = strdup(p->tok_ref[0]);
 				for (size_t p2 = p1 + 1; p2 < hl; p2++)
-					for (int a = 0; a < 8; a++)
-						for (int b = 0; b < 8; b++) {
+					for (int a = 0; a < 16; a++)
+						for (int b = 0; b < 16; b++) {
 							m[p1] = sub[a];
 							m[p2] = sub[b];
 							emit_c01(p, c, m, "d2-two-header-chars");
